@@ -24,7 +24,7 @@ if ! [ -x "${DFS}" ]; then
 fi
 
 HERE="$(cd "$(dirname "$0")" && pwd)"
-WORK="${HERE}/_gz_work"
+WORK="$(mktemp -d "${TMPDIR:-/tmp}/gz_hints.XXXXXX")"; trap 'rm -rf "${WORK}"' EXIT
 rm -rf "${WORK}"
 mkdir -p "${WORK}" || exit 2
 cd "${WORK}" || exit 2
